@@ -52,6 +52,28 @@ prop('C08', True,
      "concatenated chunks is not modelled (token level).",
      "Lean 4 proof (prefix-freeness by mutual induction) + proved negation with witness + differential correspondence + collision search")
 
+EXEC_NOTE = 'Modelled, not verified: a store/lock call is one atomic event at this layer (locks: C04; result publication: C05); task functions deterministic; the redis protocol runs against an in-memory stand-in; signals are raised at gate points (function entry/exit, hooks, wait-loop sleep) rather than between arbitrary byte codes; worker task lists/scanning order are abstracted (a worker may look at any task at any time), so full completeness is established by trace validation and monitors, not by a theorem.'
+TIE = ' Tie to the code, checked on every run: (1) translator: every root-to-leaf path of the real jug.jug.execution_loop (task lists [t], [d,t(d)], [t,u]; all 8 flag settings; all consistent answers of store/locks/functions/hooks incl. SystemExit/KeyboardInterrupt) is re-extracted into Generated/WorkerPaths.lean and the kernel checks each against the worker-local transition function (theorem worker_conforms); accept = lstep /\\ environment consistency is proved (accept_local, local_env_accept). (2) trace validation: real multi-worker runs of generated jugfiles under a gated scheduler on dict/file/file+pack/redis-protocol backends are replayed event by event through the compiled model, with equal final store. (3) failing-input search: property monitors on the same real runs.'
+prop('C01', True, "Lean transition system of the distributed execution protocol (any number of workers, any interleaving). Theorems: exec_sound (every stored result = sequential denotation, for all histories incl. "
+     "failures/stops/crashes/lock cleanup), loads_are_reference, load_enabled (aggressive unloading harmless), rerun_noop, exec_complete_partial/started_tasks_have_reference_value." + TIE,
+     EXEC_NOTE, "Lean 4 proof (invariants by induction over histories) + kernel-checked extracted worker-loop paths + trace validation of gated real runs")
+prop('C02', True, "Theorems: mutex_run/mutex_cs (no two workers inside the same task in any reachable state), no_rerun_once_stored, result_stable, publish_before_release, at_most_once/stored_never_started/"
+     "exactly_once_if_stored (ghost run counter) for unboundedly many workers and arbitrary histories." + TIE + " Targeted schedules: stall a worker between check and lock for every task; late joiners; early quitters.",
+     EXEC_NOTE, "Lean 4 proof (invariants, ghost counter) + kernel-checked extracted worker-loop paths + trace validation")
+prop('C03', True, "Theorems: run_after_deps, blocked_while_dep_missing, args_are_stored_results, result_is_function_of_stored over the dependency relation 'results the task really reads'." + TIE +
+     " Ground truth of dependencies is measured independently of Task.dependencies() (loads of a cache-free sequential run) for every embedding kind and compared with what the code reports; edge tests hold a worker inside a dependency while others run.",
+     EXEC_NOTE, "Lean 4 proof + kernel-checked extracted worker-loop paths + trace validation + dependency ground-truth comparison")
+prop('C11', True, "Theorems: failure_stores_nothing, failed_cannot_dump, publish_needs_normal_return, dependents_never_start, exit_nonzero_after_failure, failed_unlock/failed_mark (release iff not --keep-failed), "
+     "keep_going_continues, failed_lock_blocks/no_begin/persists, cleanup_failed_reenables." + TIE + " Runs inject failing task subsets under all flag combinations, follow-up runs and the real `cleanup --failed-only`.",
+     EXEC_NOTE + " 'Every independent task completes under --keep-going' is a liveness-flavoured statement checked by monitors on the runs, not proved.", "Lean 4 proof + kernel-checked extracted worker-loop paths (exception subtrees) + trace validation")
+prop('C12', True, "Theorems: stop_leaves_no_lock (an exited worker holds no lock, any history), stop_always_enabled (a stop can surface in every live state), stop_changes_nothing_shared, stopping_only_unlocks_and_exits, "
+     "cannot_exit_holding, interrupted_task_has_no_result, state_after_stop_is_regular; bridge stop_mechanisms_use_known_hooks over the table re-extracted from exit_checks.py/execute.py." + TIE +
+     " Runs raise SystemExit/KeyboardInterrupt inside every task function, inside the wait-loop sleep and from the task-count hook; real processes with real SIGTERM/SIGINT in both tiers.",
+     EXEC_NOTE, "Lean 4 proof + kernel-checked extracted worker-loop paths (SystemExit/KeyboardInterrupt subtrees) and stop table + trace validation + real-signal process runs")
+prop('C13', True, "Theorems: crash_always_enabled, crash_preserves, crash_keeps_results_correct, residue_is_own_locks, survivors_skip, recovery (lock cleanup re-establishes the invariant and keeps all results), "
+     "recovery_no_rerun, recovered_task_can_be_locked." + TIE + " Runs kill workers at every gate, then the real `cleanup --locks-only` and a recovery run; the combined history (crash, removeLocks, recovery) is replayed through the model; real SIGKILL of real processes.",
+     EXEC_NOTE + " Kill points inside a single file-system write are C05's.", "Lean 4 proof + trace validation of crash/recovery histories + real SIGKILL process runs")
+
 def main():
     checks, na = [], []
     ids = ['C%02d' % i for i in range(1, 21)]
